@@ -9,7 +9,10 @@
                                 (decrement 1..2 so that every device limit ≥ 2 is reached before
                                 req_size hits 0; initial size 1..255; C8/C9/CA are all caught;
                                 write_length 1..255).  Re-decided whenever the source changes.
-  * `read_exact`              — for EVERY area content up to 65535 bytes, offset, count inside it,
+  * `read_exact`              — for EVERY area content up to 65536 bytes (a full 64 KiB: every byte a 16-bit
+                                offset addresses; `read_reaches_last_byte_of_64k`, `read_full_of_64k_device`:
+                                the reported size is a 16-bit field, `end_clamped_to_ffff_loses_last_byte`),
+                                offset, count inside it,
                                 FRU id 0..255, device limit ≥ 2 enforced by C8/C9/CA (or ≥ 1 served
                                 short): read_fru_data returns exactly the stored slice.
   * `read_full_exact`         — read_fru_data_full returns the whole inventory area.
@@ -39,7 +42,7 @@
                                 area-length check of fixes/C15-2.diff, getters with and without the absent-area
                                 guard, either form of `read_fru_data`), EVERY transport (any peer behaviour),
                                 every request on the wire carries the caller's FRU id.
-  * `write_exact`             — write_fru_data stores exactly the given bytes contiguously from the
+  * `write_exact` (contents up to a full 64 KiB, the data may end at 10000h)             — write_fru_data stores exactly the given bytes contiguously from the
                                 offset and touches no other FRU.
   * `write_count_mismatch_raises` — for EVERY peer: write_fru_data returns normally only if every
                                 write was acknowledged with exactly the number of bytes sent.
@@ -76,9 +79,39 @@ theorem constants_ok : fruCfg.ok = true := by decide
 `[offset, offset + count)`. -/
 theorem read_exact (d : FruDev) (hd : DevOk d) (id off cnt : Nat) (c : List Nat) (tr : List Xchg)
     (hid : id < 256) (hg : d.get id = some c) (hrange : off + cnt ≤ c.length)
-    (h64 : c.length ≤ 65535) :
+    (h64 : c.length ≤ 65536) :
     (readFruData fruCfg respond ⟨d, tr⟩ (some off) cnt id).out = .ok ((c.drop off).take cnt) :=
-  (readFruData_exact fruCfg constants_ok d hd id c hid hg off cnt hrange h64 ⟨d, tr⟩ rfl).1
+  (readFruData_exact64 fruCfg constants_ok d hd id c hid hg off cnt hrange h64 ⟨d, tr⟩ rfl).1
+
+/-- "FRU contents up to 64 KiB": the 16-bit offset of Read FRU Data addresses bytes 0..FFFFh, so a device may hold
+65536 bytes and an explicit range may END at 10000h.  The ranges that reach the last addressable byte: -/
+theorem read_reaches_last_byte_of_64k (d : FruDev) (hd : DevOk d) (id cnt : Nat) (c : List Nat) (tr : List Xchg)
+    (hid : id < 256) (hg : d.get id = some c) (h64 : c.length = 65536) (hcnt : cnt ≤ 65536) :
+    (readFruData fruCfg respond ⟨d, tr⟩ (some (65536 - cnt)) cnt id).out = .ok (c.drop (65536 - cnt)) := by
+  have h := read_exact d hd id (65536 - cnt) cnt c tr hid hg (by omega) (by omega)
+  rw [h, List.take_of_length_le (by simp; omega)]
+
+/-- … while the size Get FRU Inventory Area Info reports is a 16-bit field: a 65536-byte device says FFFFh, and
+"the whole inventory area" of `read_fru_data_full` is the 65535 bytes the device reports (the last byte is
+reachable through an explicit range only, `read_reaches_last_byte_of_64k`). -/
+theorem read_full_of_64k_device (d : FruDev) (hd : DevOk d) (id : Nat) (c : List Nat) (tr : List Xchg)
+    (hid : id < 256) (hg : d.get id = some c) (h64 : 65535 ≤ c.length) :
+    (readFruDataFull fruCfg respond ⟨d, tr⟩ id).out = .ok (c.take 65535) := by
+  have hc := (Cfg.ok_iff fruCfg).mp constants_ok
+  have hinfo := respond_info_64k d id c hid hg h64
+  have := readLoop_exact fruCfg constants_ok d hd id c hid hg 65535 h64 (by omega)
+    (65535 + fruCfg.initReq + 1)
+    ⟨d, tr ++ [⟨infoReq id, [0, 255, 255, 0]⟩]⟩ 0 fruCfg.initReq [] rfl
+    (by omega) hc.2.2.1 hc.2.2.2.1 (by omega)
+  simp only [readFruDataFull, readFruData, areaInfo, xchg, hinfo, decodeInfoRsp]
+  simpa using this.1
+
+/-- COUNTER-EXAMPLE for a read loop whose END is clamped to FFFFh (the largest OFFSET, not the largest end):
+asked for the byte at offset FFFFh it sends nothing and returns no byte, whatever the peer. -/
+theorem end_clamped_to_ffff_loses_last_byte {σ} (send : Send σ) (w : World σ) (id fuel req : Nat) :
+    (readLoop fruCfg send (fuel + 1) w id (min (0xFFFF + 1) 0xFFFF) 0xFFFF req []).out = .ok [] ∧
+    (readLoop fruCfg send (fuel + 1) w id (min (0xFFFF + 1) 0xFFFF) 0xFFFF req []).w.trace = w.trace := by
+  simp [readLoop]
 
 /-- `read_fru_data_full(fru_id)` returns the whole inventory area. -/
 theorem read_full_exact (d : FruDev) (hd : DevOk d) (id : Nat) (c : List Nat) (tr : List Xchg)
@@ -285,7 +318,7 @@ theorem requests_name_fru {σ} (send : Send σ) (v : Var) (hv : v.mrShipped = fa
 /-- `write_fru_data(data, offset, fru_id)` stores exactly `data` contiguously from `offset` in the
 named FRU and leaves every other FRU alone. -/
 theorem write_exact (d : FruDev) (id off : Nat) (c data : List Nat) (tr : List Xchg) (hid : id < 256)
-    (hg : d.get id = some c) (hfit : off + data.length ≤ c.length) (h64 : c.length ≤ 65535)
+    (hg : d.get id = some c) (hfit : off + data.length ≤ c.length) (h64 : c.length ≤ 65536)
     (hw : fruCfg.writeLen ≤ d.wmax) :
     let r := writeFruData fruCfg respond ⟨d, tr⟩ data off id
     r.out = .ok () ∧ r.w.dev.get id = some (splice c off data) ∧
@@ -293,11 +326,12 @@ theorem write_exact (d : FruDev) (id off : Nat) (c data : List Nat) (tr : List X
   have hc := (Cfg.ok_iff fruCfg).mp constants_ok
   have hn : fruCfg.writeLen ≠ 0 := by have := hc.2.2.2.2.2.2.2.1; omega
   have hflat := chunks_flatten fruCfg.writeLen hc.2.2.2.2.2.2.2.1 data
-  have := writeChunks_exact id hid (chunks fruCfg.writeLen data) ⟨d, tr⟩ c off hg
+  have := writeChunks_exact64 id hid (chunks fruCfg.writeLen data) ⟨d, tr⟩ c off hg
     (fun ch hch => by
       have := chunks_len fruCfg.writeLen data ch hch
+      have := chunks_pos fruCfg.writeLen hc.2.2.2.2.2.2.2.1 data ch hch
       have := hc.2.2.2.2.2.2.2.2
-      exact ⟨by simp only; omega, by omega⟩)
+      exact ⟨by simp only; omega, by omega, by omega⟩)
     (by rw [hflat]; exact hfit) h64
   rw [hflat] at this
   simpa [writeFruData, hn] using this
@@ -371,17 +405,18 @@ theorem withWriteLen_default : withWriteLen fruCfg.writeLen = fruCfg := rfl
 
 theorem write_exact_any_chunk (wl : Nat) (h1 : 1 ≤ wl) (h255 : wl ≤ 255)
     (d : FruDev) (id off : Nat) (c data : List Nat) (tr : List Xchg) (hid : id < 256)
-    (hg : d.get id = some c) (hfit : off + data.length ≤ c.length) (h64 : c.length ≤ 65535)
+    (hg : d.get id = some c) (hfit : off + data.length ≤ c.length) (h64 : c.length ≤ 65536)
     (hw : wl ≤ d.wmax) :
     let r := writeFruData (withWriteLen wl) respond ⟨d, tr⟩ data off id
     r.out = .ok () ∧ r.w.dev.get id = some (splice c off data) ∧
       ∀ j, j ≠ id → r.w.dev.get j = d.get j := by
   have hn : wl ≠ 0 := by omega
   have hflat := chunks_flatten wl h1 data
-  have := writeChunks_exact id hid (chunks wl data) ⟨d, tr⟩ c off hg
+  have := writeChunks_exact64 id hid (chunks wl data) ⟨d, tr⟩ c off hg
     (fun ch hch => by
       have := chunks_len wl data ch hch
-      exact ⟨by simp only; omega, by omega⟩)
+      have := chunks_pos wl h1 data ch hch
+      exact ⟨by simp only; omega, by omega, by omega⟩)
     (by rw [hflat]; exact hfit) h64
   rw [hflat] at this
   simpa [writeFruData, withWriteLen, hn] using this
